@@ -26,7 +26,7 @@ ASSUMPTIONS = [
 FAULTS = ['missing', 'empty', 'ten-bytes', 'header-only', 'half', 'one-byte-short']
 REQUIRED = {t: ['path:inline', 'path:serial', 'path:pool', 'path:cache-hit', 'workers:1', 'workers:16', 'list:rectangular', 'list:below-threshold',
                 'history:different-lists-one-process', 'fault:planted', 'fault:save-raises', 'fault:crash-during-save', 'fault:crash-during-assembly', 'object:matrix',
-                'object:load-vector', 'keys:same-text-other-curve', 'trace:checked', 'source:driver'] + ['fault-class:' + f for f in FAULTS]
+                'object:load-vector', 'keys:same-text-other-curve', 'keys:deep-siblings', 'call:test-list-only', 'trace:checked', 'source:driver'] + ['fault-class:' + f for f in FAULTS]
             for t in ('quick', 'thorough')}
 TIMEOUT = {'quick': 1500, 'thorough': 7200}
 CURVES = ['UnitSquare', 'PiSquare', 'LShape', 'Circle', 'UnitInterval']
@@ -179,6 +179,17 @@ def run_sched(spec, acc):
                     if fr is None:
                         raise
                     acc.violation('assembly-raised:%s:%s' % (fr[0], type(ex).__name__), '%s: raised %s at %s:%d' % (curve, type(ex).__name__, fr[1], fr[2]), w)
+            # only the test list given: the trial list defaults to the same list, on every path
+            perm = list(order)
+            rng.shuffle(perm)
+            for label, got in (('keyword-serial', SL.bilform_matrix(elems_test=perm)), ('positional-pool', SL.bilform_matrix(perm, use_mp=True)),
+                               ('no-argument', SL.bilform_matrix())):
+                lst = perm if label != 'no-argument' else list(ls.mesh.leaf_elements)
+                acc.case('%s|default-trial|%s|%s' % (curve, label, exact), None)
+                acc.seen('call:test-list-only')
+                if not same_bits(got, per_pair(SL, lst, lst)):
+                    acc.violation('path-differs:default-trial-list', '%s: bilform_matrix with only the test list given (%s) differs from per-pair evaluation on that list' % (curve, label),
+                                  dict(wit0, pw_exact=exact, call=label))
             # different lists one after the other in one process, pool path (stale module globals hazard)
             a1, a2 = order[:len(order) // 2], order[len(order) // 2:]
             if len(a1) * len(a1) >= 100 and len(a2) * len(a2) >= 100:
@@ -558,6 +569,25 @@ def run_keys(spec, acc):
             res.append(str(elems))
         if res[0] == res[1]:
             acc.seen('keys:same-text-other-curve')
+        # two lists of equal length whose elements differ only in late digits (sibling leaves at space / time level 20-24)
+        for ax in (1, 0):
+            mesh = MeshParametrized(P.UnitSquare(), initial_time_mesh=[0, 1])
+            e = [x for x in mesh.leaf_elements if x.space_interval[0] == 1][0]
+            for _ in range(22 if ax == 1 else 24):
+                kids = mesh.refine_axis(e, ax)
+                e = kids[0]
+            sib = e.parent.children[1]
+            coarse = sorted((x for x in mesh.leaf_elements if x is not e and x is not sib), key=lambda x: -x.h_x * x.h_t)[:10]
+            A, B = coarse + [e], coarse + [sib]
+            SLc = SingleLayerOperator(mesh, cache_dir=cdir)
+            SLn = SingleLayerOperator(mesh)
+            gA = SLc.bilform_matrix(A, A, use_mp=False)
+            gB = SLc.bilform_matrix(B, B, use_mp=False)
+            acc.case('keys|deep|%d' % ax, None)
+            acc.seen('keys:deep-siblings')
+            if not same_bits(gA, per_pair(SLn, A, A)) or not same_bits(gB, per_pair(SLn, B, B)):
+                acc.violation('cache-shared-between-lists:deep', 'two lists that differ in one sibling leaf at level %d (axis %d) were served the same cache entry'
+                              % (e.levels[ax], ax), {'axis': ax, 'level': e.levels[ax], 'elem': repr(e), 'sibling': repr(sib)})
         acc.extra['cache_files_keys'] = sorted(os.listdir(cdir))
         acc.sample({'grid': grid, 'curves': ['UnitSquare', 'rectangle 1.5x0.5'], 'files': sorted(os.listdir(cdir))}, 'keys')
     finally:
